@@ -746,7 +746,8 @@ impl Service<Vec<u8>, ()> for BehSvc {
     fn call(&self, request: Request<Vec<u8>, ()>) -> Self::Future {
         let id = request.message().header().id();
         let addr = request.client_addr();
-        let kind = self.env.choose(SK_N, "svc-kind");
+        // the concurrent well-behaved connection always gets a plain answer
+        let kind = if id == 0x7C7C { SK_SINGLE } else { self.env.choose(SK_N, "svc-kind") };
         self.env.log.lock().unwrap().svc_calls.push((id, addr, kind));
         let mut items: VecDeque<ServiceResult<Vec<u8>>> = VecDeque::new();
         let mut pre = Duration::ZERO;
@@ -1352,6 +1353,8 @@ struct StreamState {
 
 struct StreamInner {
     env: Arc<Env>,
+    /// a quiet stream always gets the default environment answers
+    quiet: bool,
     st: Mutex<StreamState>,
 }
 
@@ -1360,7 +1363,17 @@ struct MockStream(Arc<StreamInner>);
 
 impl MockStream {
     fn new(env: &Arc<Env>) -> MockStream {
-        MockStream(Arc::new(StreamInner { env: env.clone(), st: Mutex::new(StreamState::default()) }))
+        MockStream(Arc::new(StreamInner { env: env.clone(), quiet: false, st: Mutex::new(StreamState::default()) }))
+    }
+    fn quiet(env: &Arc<Env>) -> MockStream {
+        MockStream(Arc::new(StreamInner { env: env.clone(), quiet: true, st: Mutex::new(StreamState::default()) }))
+    }
+    fn choose(&self, n: usize, label: &'static str) -> usize {
+        if self.0.quiet {
+            0
+        } else {
+            self.0.env.choose(n, label)
+        }
     }
     fn feed(&self, bytes: &[u8]) {
         let mut st = self.0.st.lock().unwrap();
@@ -1390,7 +1403,7 @@ impl AsyncRead for MockStream {
             return Poll::Ready(Err(io::ErrorKind::ConnectionReset.into()));
         }
         if !st.inbuf.is_empty() {
-            if !st.intr_done && self.0.env.choose(2, "tcp-read") == 1 {
+            if !st.intr_done && self.choose(2, "tcp-read") == 1 {
                 st.intr_done = true;
                 st.reads_interrupted += 1;
                 self.0.env.flag("read-interrupted");
@@ -1425,7 +1438,7 @@ impl AsyncWrite for MockStream {
             st.pend_once = false;
             0
         } else {
-            self.0.env.choose(5, "tcp-write")
+            self.choose(5, "tcp-write")
         };
         let name = ["all", "one-octet", "pending-once", "error", "stalled"][c];
         st.writes.push(name);
@@ -1504,7 +1517,8 @@ impl AsyncAccept for MockListener {
             st.waker = Some(cx.waker().clone());
             return Poll::Pending;
         }
-        if !st.err_done && self.0.env.choose(2, "tcp-accept") == 1 {
+        let quiet = st.pending.front().map(|p| p.0 .0.quiet).unwrap_or(false);
+        if !quiet && !st.err_done && self.0.env.choose(2, "tcp-accept") == 1 {
             st.err_done = true;
             st.accept_errors += 1;
             return Poll::Ready(Err(io::Error::new(io::ErrorKind::ConnectionAborted, "mock: accept failed")));
@@ -1567,6 +1581,7 @@ struct ConnObs {
 struct StreamObs {
     a: ConnObs,
     b: ConnObs,
+    c: ConnObs,
     alive: bool,
     stopped: bool,
 }
@@ -1579,6 +1594,14 @@ async fn drive_stream(env: Arc<Env>, plan: &StreamPlan) -> StreamObs {
     let a = MockStream::new(&env);
     let addr_a: SocketAddr = "192.0.2.20:4000".parse().unwrap();
     listener.connect(a.clone(), addr_a);
+    // a concurrent, well-behaved connection with default environment answers
+    let c = MockStream::quiet(&env);
+    let addr_c: SocketAddr = "192.0.2.22:4002".parse().unwrap();
+    listener.connect(c.clone(), addr_c);
+    let cm = probe_message(0x7C7C);
+    let mut cb = (cm.len() as u16).to_be_bytes().to_vec();
+    cb.extend_from_slice(&cm);
+    c.feed(&cb);
     let mut delivered = Vec::new();
     let mut abort: Option<&'static str> = None;
     for (gap, bytes) in &plan.chunks {
@@ -1626,6 +1649,7 @@ async fn drive_stream(env: Arc<Env>, plan: &StreamPlan) -> StreamObs {
     tokio::time::sleep(Duration::from_secs(10)).await;
     let alive = !jh.is_finished();
     b.close(false);
+    c.close(false);
     let _ = srv.shutdown();
     tokio::time::sleep(Duration::from_secs(1)).await;
     let stopped = jh.is_finished();
@@ -1633,7 +1657,7 @@ async fn drive_stream(env: Arc<Env>, plan: &StreamPlan) -> StreamObs {
         let st = s.0.st.lock().unwrap();
         ConnObs { delivered, out: st.out.clone(), client_abort: abort, write_fail: st.write_fail, writes: st.writes.clone(), server_closed: st.shutdown }
     };
-    StreamObs { a: obs(&a, delivered, abort), b: obs(&b, pb, None), alive, stopped }
+    StreamObs { a: obs(&a, delivered, abort), b: obs(&b, pb, None), c: obs(&c, cb, None), alive, stopped }
 }
 
 /// Reference deframing: complete frames of a two-octet-length-prefixed stream.
@@ -1755,6 +1779,10 @@ fn run_stream(ch: &mut Chooser, col: &Collector, depth: Option<usize>) {
     let comp_a = if depth.is_some() { "stream-depth" } else { "stream" };
     let (written_a, expected_a) = judge_conn(comp_a, &obs.a, &log, "192.0.2.20:4000".parse().unwrap(), fixed, &mut viol);
     let (written_b, _) = judge_conn("stream-probe-conn", &obs.b, &log, "192.0.2.21:4001".parse().unwrap(), None, &mut viol);
+    let (written_c, _) = judge_conn("stream-concurrent-conn", &obs.c, &log, "192.0.2.22:4002".parse().unwrap(), None, &mut viol);
+    if written_c != 1 && !viol.iter().any(|v| v.0.starts_with("C16|stream-concurrent-conn")) {
+        viol.push(("C16|stream-concurrent-conn|response-missing|no-suspect-condition".to_string(), format!("{written_c} responses on the concurrent connection")));
+    }
     if written_b != 1 && !viol.iter().any(|v| v.0.starts_with("C16|stream-probe-conn")) {
         viol.push(("C16|stream-probe-conn|response-missing|no-suspect-condition".to_string(), format!("{written_b} responses on the second connection")));
     }
@@ -1794,6 +1822,7 @@ fn run_stream(ch: &mut Chooser, col: &Collector, depth: Option<usize>) {
         println!("  A written   {} octets: {}", obs.a.out.len(), hex(&obs.a.out));
         println!("  A abort={:?} write_fail={} server_closed={} writes={:?}", obs.a.client_abort, obs.a.write_fail, obs.a.server_closed, obs.a.writes);
         println!("  B written   {} octets: {}", obs.b.out.len(), hex(&obs.b.out));
+        println!("  C written   {} octets: {}", obs.c.out.len(), hex(&obs.c.out));
         println!("  dispatched: {:?}", log.dispatched.iter().map(|d| format!("{:#x}", d.0)).collect::<Vec<_>>());
         println!("  svc calls: {:?}", log.svc_calls.iter().map(|d| format!("{:#x}:{}", d.0, SK_NAMES[d.2])).collect::<Vec<_>>());
         println!("  produced: {:?}", log.produced.iter().map(|p| format!("{:#x}:{}", p.0, match &p.2 { Produced::Resp(b) => format!("resp{}B", b.len()), Produced::Feedback => "feedback".into(), Produced::Err => "err".into() })).collect::<Vec<_>>());
